@@ -8,6 +8,12 @@
 //!       target `R1` and checks that `draw` emits exactly the same pixel sequence in one
 //!       `draw_iter` call.
 //!
+//!   thick.skips x0 y0 x1 y1 w  -> `skL skR n`: the `Extra` perpendicular steps `ParallelsIterator::next_parallel` takes
+//!                                 without returning a parallel on the left / right side, and the number of parallels,
+//!                                 of `ParallelsIterator::new(line, w, StrokeOffset::None)` run to its end - computed by the
+//!                                 port `joins_port::skipped_extras` (the iterator is private). These are the counters the
+//!                                 band oracle discounts with; the model computes them with `Thick.skipTotals`
+//!                                 (EG/Model/ThickSkips.lean), the counters of the theorem `thick_band_with_skipped_discount`.
 //!   thick.bbox x0 y0 x1 y1 w   -> `bounding_box()` of the same styled line (`styled_bounding_box`,
 //!       i.e. `Line::extents(w, StrokeOffset::None)`), as `x,y,w,h`; compared with
 //!       `Thick.styledBoundingBox`. Oracle `C02:line-bbox-contains-pixels` (counts for C02 only):
@@ -434,10 +440,21 @@ impl Module for M {
             let w = if rng.chance(2, 3) { rng.range(1, 12) } else { rng.range(1, wmax) };
             emit(format!("thick.points {} {} {} {} {}", x0, y0, x0 + dx, y0 + dy, w));
         }
+        // the skipped-step counters of the band oracle's discount (port) against the model's `skipTotals`:
+        // every direction of a grid x narrow .. very wide strokes, and every wide stroke below
+        let rs = if tier == Tier::Quick { 10 } else { 24 };
+        for dx in -rs..=rs {
+            for dy in -rs..=rs {
+                for w in [0u32, 1, 4, 9, 21, 33, 34, 60, 128] {
+                    emit(format!("thick.skips 2 -3 {} {} {}", 2 + dx, -3 + dy, w));
+                }
+            }
+        }
         // wide strokes (w in 13..=120): the known finding C17:thick-band:wide-stroke-overcount shows from
         // w = 34; every other claim of the sentence is checked on them as well
         for (x0, y0, x1, y1, w) in WIDE_FIXED {
             emit(format!("thick.points {} {} {} {} {}", x0, y0, x1, y1, w));
+            emit(format!("thick.skips {} {} {} {} {}", x0, y0, x1, y1, w));
         }
         for (sx, sy) in [(1, 1), (1, -1), (-1, 1), (-1, -1)] {
             for (a, b) in [(20, 12), (12, 20), (30, 14), (9, 17)] {
@@ -478,6 +495,7 @@ impl Module for M {
             };
             let w = rng.range(13, 120);
             emit(format!("thick.points {} {} {} {} {}", x0, y0, x0 + dx, y0 + dy, w));
+            emit(format!("thick.skips {} {} {} {} {}", x0, y0, x0 + dx, y0 + dy, w));
         }
     }
 
@@ -544,6 +562,19 @@ impl Module for M {
                     }
                 }
                 pts_digest(&px)
+            }
+            "thick.skips" => {
+                let s = t.point();
+                let e = t.point();
+                let w = t.u32();
+                let (skl, skr, n) = joins_port::skipped_extras(((s.x as i64, s.y as i64), (e.x as i64, e.y as i64)), w);
+                ctx.count("thick:skips");
+                if skl + skr > 0 {
+                    ctx.count("thick:skips:some-step-skipped");
+                    ctx.nontrivial(op);
+                }
+                // (the iterator is private: the port is what the band oracle uses; the stream ties it to the model)
+                format!("{} {} {}", skl, skr, n)
             }
             "thick.bbox" => {
                 let s = t.point();
